@@ -574,6 +574,15 @@ static inline Table randomTable(Rng& r, const World& w, const FSpec& f, const st
 // ------------------------------------------------------------------------------------
 // Case context, counters and worker main
 // ------------------------------------------------------------------------------------
+static FILE* g_out = nullptr;
+// Record what the case is about to do (coarse, stable text such as "INTERSECTION:IR,IR->FR").  If the
+// process dies, the driver puts the last phase into the violation key of the sanitizer report.
+static std::string g_phase;
+static inline void phase(const std::string& p) {
+    g_phase = p;
+    if (g_out) { fprintf(g_out, "{\"t\":\"phase\",\"p\":%s}\n", jstr(p).c_str()); fflush(g_out); }
+}
+
 struct Ctx {
     const char* prop;
     uint64_t seed;
@@ -611,10 +620,12 @@ static inline int workerMain(int argc, char** argv, const char* prop, CaseFn fn)
     }
     FILE* out = outp ? fopen(outp, "a") : stdout;
     if (!out) { fprintf(stderr, "cannot open %s\n", outp); return 2; }
+    g_out = out;
     for (long idx = lo; idx < hi; idx++) {
         fprintf(out, "{\"t\":\"begin\",\"idx\":%ld}\n", idx); fflush(out);
         Ctx c; c.prop = prop; c.seed = seed; c.idx = idx; c.thorough = thorough;
         c.rng.reseed(caseSeed(seed, prop, idx));
+        g_phase.clear();
         std::string verdict = "ok", key, detail;
         try {
             fn(c);
@@ -623,7 +634,7 @@ static inline int workerMain(int argc, char** argv, const char* prop, CaseFn fn)
         } catch (Unsupported& u) {
             verdict = "unsupported"; detail = u.what;
         } catch (MEDDLY::error& e) {
-            verdict = "viol"; key = std::string("unexpected-error:") + e.getName();
+            verdict = "viol"; key = std::string(prop) + ":" + (g_phase.empty() ? std::string() : g_phase + ":") + "unexpected-error:" + e.getName();
             detail = std::string("unexpected MEDDLY::error ") + e.getName() + " at " +
                      (e.getFile() ? e.getFile() : "?") + ":" + tos(e.getLine());
         } catch (std::exception& e) {
